@@ -126,8 +126,45 @@ def chk_pub_bytes(b):
     return "parsed-to-reference-point", []
 
 
+def _hist_encodings():
+    pt = secp.pub(0xC0FFEE)
+    pt2 = secp.pub(5)
+    out = []
+    for p in (pt, secp.neg(pt), pt2):
+        out += [secp.sec(p, True).hex(), secp.sec(p, False).hex()]
+    return out
+
+
+class ParseHistories:
+    """PublicKey.parse / PrivateKey construction calls in sequence within one process (a point and its negation share x;
+    k and n-k share x): every answer must equal the answer of a fresh process. canon = the history."""
+
+    def ops(self, hist):
+        return [["pub", e] for e in _hist_encodings()] + [["prv", "%x" % k] for k in (0xC0FFEE, N - 0xC0FFEE)]
+
+    def run(self, hist):
+        viols, label = [], "init"
+        for n, op in enumerate(hist):
+            if op[0] == "pub":
+                o, vs = chk_pub_bytes(bytes.fromhex(op[1]))
+            else:
+                o, vs = chk_scalar(int(op[1], 16))
+            if n == len(hist) - 1:
+                for v in vs:
+                    v["key"] = v["key"] + ":history"
+                    v["msg"] = "after %r in the same process: %s" % (hist[:-1], v["msg"])
+                viols, label = vs, o
+        return {"canon": hist, "viols": viols, "label": label}
+
+
 def execute(case):
-    k = case["k"]
+    k = case.get("k")
+    if "hist" in case:
+        from ..core import isolated
+        r = isolated(ParseHistories().run, case["hist"])
+        for v in r["viols"]:
+            v["case"] = case
+        return R(r["label"], viols=r["viols"])
     if k == "scalar":
         o, vs = chk_scalar(int(case["v"], 16))
     elif k == "bad":
@@ -177,6 +214,14 @@ def run(ctx):
             continue
         for pat in (b"\x01", b"\x00", b"\xff", b"\x7f"):
             bad.append({"k": "bad", "form": "bytes", "val": (pat * L).hex()})
+        good32 = (0x1234567890ABCDEF << 64 | 0x42).to_bytes(32, "big")
+        if L > 32:   # a valid scalar wrapped in padding / marker bytes is still a byte string of the wrong length
+            for wrapped in (b"\x00" * (L - 32) + good32, good32 + b"\x00" * (L - 32), good32 + b"\x01" * (L - 32), b"\x80" + good32 + b"\x01" * (L - 33)):
+                bad.append({"k": "bad", "form": "bytes", "val": wrapped[:L].hex()})
+        else:        # minimal-length encodings of small valid scalars
+            bad.append({"k": "bad", "form": "bytes", "val": ((1 << (8 * L)) - 1 if L else 0).to_bytes(L, "big").hex()})
+            if L:
+                bad.append({"k": "bad", "form": "bytes", "val": (1).to_bytes(L, "big").hex()})
     ctx.product("invalid-scalars", bad, execute)
     pubs = []
     base_pts = [secp.pub(k) for k in (1, 2, 7, N - 1, r.randrange(1, N), r.randrange(1, N))]
@@ -206,4 +251,6 @@ def run(ctx):
     ctx.product("public-key-encodings", pubs, execute)
     ctx.product("wif-first-char-extremes", [{"k": "wif_extremes"}, {"k": "scalar", "v": "%x" % (N - 1)}, {"k": "scalar", "v": "1"}], execute,
                 parallel=False)
+    from ..bfs import bfs
+    bfs(ctx, "parse-call-histories", ParseHistories(), 3 if ctx.thorough else 2)
     return {}
